@@ -31,7 +31,10 @@ def scenarios():
     for jobs in (None, 3):
         for git in ("none", "clean", "dirty"):
             out.append({"name": "run-%s-%s" % ("seq" if jobs is None else "j3", git), "cmd": "run", "jobs": jobs, "git": git, "prior": git == "none"})
+    out.append({"name": "run-j3-unrelated-children", "cmd": "run", "jobs": 3, "git": "none", "prior": False, "prefork": [[15, 0], [40, 0], [90, 0], [160, 0]]})
+    out.append({"name": "run-seq-unrelated-children", "cmd": "run", "jobs": None, "git": "none", "prior": True, "prefork": [[10, 0], [60, 0], [140, 0], [250, 0]]})
     out.append({"name": "restore", "cmd": "restore", "jobs": None, "git": "none", "prior": True})
+    out.append({"name": "restore-after-killed-restore", "cmd": "restore", "jobs": None, "git": "none", "prior": True, "killed_restore_first": True})
     out.append({"name": "archive", "cmd": "archive", "jobs": None, "git": "none", "prior": True})
     out.append({"name": "gc", "cmd": "gc", "jobs": None, "git": "none", "prior": True})
     return out
@@ -75,6 +78,18 @@ def build(scroot, scn):
         extra["rows_archived"] = pr.rows()
         pr.cond(["clean", "-f"], timeout=60)
         pr.cond(["run", "//a/b:ok3"], timeout=60, clock=[1_600_000_300])
+        if scn.get("killed_restore_first"):
+            # an earlier restore of the same archive died while copying: partial, unrecorded directories remain
+            import random as _r
+            cpath = os.path.join(scroot, "count0.json")
+            pr.cond(["restore", ap], timeout=60, count=cpath, extra_files=[shutil.__file__])
+            c0 = json.load(open(cpath)) if os.path.exists(cpath) else {"sites": {}}
+            pr.cond(["clean", "-f"], timeout=60)
+            pr.cond(["run", "//a/b:ok3"], timeout=60, clock=[1_600_000_300])
+            ks = [k for site, occ in c0["sites"].items() if site.startswith("shutil.py") for k in occ]
+            if ks:
+                k = sorted(ks)[len(ks) // 2]
+                pr.cond(["restore", ap], timeout=60, crash_at=k, crash_note=os.path.join(scroot, "n0.json"), extra_files=[shutil.__file__])
     if scn["cmd"] == "gc":
         os.makedirs(os.path.join(pr.root, "cond-out", "a", "ghost.task.5", "d"), exist_ok=True)
         os.makedirs(os.path.join(pr.root, "cond-out", "ok1.task.77"), exist_ok=True)
@@ -277,6 +292,8 @@ def crash_case(scn, k, nth, pr, extra, sc):
             kw["poll"] = poll
         else:
             kw.update(crash_at=k, crash_note=note, extra_files=[shutil.__file__] if scn["cmd"] in ("restore", "gc") else [])
+        if scn.get("prefork"):
+            kw["prefork"] = [tuple(x) for x in scn["prefork"]]
         pr.events(new_only=True)
         r = pr.cond(argv, timeout=120, **kw)
         site = None
@@ -347,6 +364,10 @@ def main(tier, n=None):
             continue
         total_events += c["n"]
         cases.append((scn, None, 0))
+        if scn.get("prefork"):
+            # unrelated children matter for the crash-free outcome (who gets recorded), not per crash point
+            cases += [(scn, None, i) for i in range(1, 8 if tier == "quick" else 60)]
+            continue
         seen = set()
         for site, occ in c["sites"].items():
             allsites.add(site)
